@@ -56,6 +56,8 @@ func main() {
 		opChunk(r, *n, *tier)
 	case "witness":
 		opWitness(*mix)
+	case "pp":
+		opPP(r, *n, *tier)
 	case "replay":
 		opReplay()
 	default:
